@@ -206,6 +206,9 @@ impl Check for C10 {
 			if let Err(p) = catch(|| fast_rates(ctx)) {
 				ctx.fail(format!("panic: {} :: fast playback rates", p), "");
 			}
+			if let Err(p) = catch(|| orphaned_failure(ctx)) {
+				ctx.fail(format!("panic: {} :: decoder failure without a handle", p), "");
+			}
 			if let Err(p) = catch(|| sliced_seek(ctx)) {
 				ctx.fail(format!("panic: {} :: seek on a sliced stream", p), "");
 			}
@@ -1296,6 +1299,75 @@ fn sliced_seek(ctx: &mut Ctx) {
 				drop(m);
 				crate::probes::reap_decoder(first, &stats);
 			}
+		}
+	}
+}
+
+/// a decoder that fails after the sound's handle was dropped (fire-and-forget playback): nobody can read the error, but the sound
+/// still stops - it is unloaded, its slot is free again, nothing more is heard, and the decoder thread ends
+fn orphaned_failure(ctx: &mut Ctx) {
+	for drop_at in 0..3usize {
+		for on_sub in [false, true] {
+			ctx.evals += 1;
+			let desc = format!("4096-frame scripted stream (DC 0.25, packets of 4 frames) whose 6th packet cannot be decoded, played on {}; the handle is dropped {}; the decoder runs into the failing packet after the second callback; 6 more callbacks of 4 frames", if on_sub { "a sub-track" } else { "the main track" }, ["right after play", "after the first callback", "after the second callback"][drop_at]);
+			let mut m = rig::manager(SR, 4, rig::caps(2), MainTrackBuilder::new().sound_capacity(1));
+			let mut sub = if on_sub { Some(m.add_sub_track(kira::track::TrackBuilder::new().sound_capacity(1)).expect("track")) } else { None };
+			let first = pacer::count();
+			let (mut dec, stats) = ScriptedDecoder::new(rig::dc_frames(4096, 0.25), SR, vec![4], 1);
+			dec.fail_decode_at = Some(6);
+			dec.fail_forever = true;
+			let data = StreamingSoundData::from_decoder(dec);
+			let mut h = Some(match sub.as_mut() {
+				Some(t) => t.play(data).map_err(|_| ()).expect("play"),
+				None => m.play(data).map_err(|_| ()).expect("play"),
+			});
+			let mut buf = vec![0.0f32; 8];
+			let mut heard_before = false;
+			for cb in 0..2 {
+				if cb == drop_at {
+					drop(h.take());
+				}
+				pacer::step(first, 6);
+				rig::callback(&mut m, &mut buf, 4, 2);
+				heard_before |= buf[0] != 0.0;
+			}
+			if drop_at == 2 {
+				drop(h.take());
+			}
+			// the decoder runs on into the failing packet
+			pacer::step(first, 40);
+			let mut audible_cbs = vec![];
+			for cb in 0..6 {
+				rig::callback(&mut m, &mut buf, 4, 2);
+				if buf.iter().any(|v| *v != 0.0) {
+					audible_cbs.push(cb);
+				}
+			}
+			let n = match sub.as_ref() {
+				Some(t) => t.num_sounds(),
+				None => m.main_track().num_sounds(),
+			};
+			let mut bad = None;
+			if !heard_before {
+				bad = Some("machinery: the stream was not heard before the failure".to_string());
+			} else if n != 0 {
+				bad = Some(format!("the sound is still loaded ({} counted) six callbacks after its decoder failed", n));
+			} else if audible_cbs.iter().any(|c| *c >= 1) {
+				bad = Some(format!("audio is still heard in callbacks {:?} after the failure", audible_cbs));
+			} else {
+				pacer::step(first, 3);
+				if !pacer::exited(first) {
+					bad = Some("the decoder thread is still alive".to_string());
+				}
+			}
+			if let Some(b) = bad {
+				ctx.fail("a streaming sound whose decoder fails after the handle was dropped does not stop / is not unloaded :: decoder failure without a handle", format!("{}; {}", desc, b));
+			}
+			ctx.nontrivial_extra += 1;
+			ctx.state(hash64(&("orphaned failure", drop_at, on_sub)));
+			drop(sub);
+			drop(m);
+			crate::probes::reap_decoder(first, &stats);
 		}
 	}
 }
